@@ -341,7 +341,13 @@ func run(c *lib.Ctx) error {
 	var wg sync.WaitGroup
 	var core, strs, text *lib.TLCResult
 	var e1, e2, e3 error
-	wg.Add(3)
+	var ntm int
+	var e4 error
+	wg.Add(4)
+	go func() { // G: timing scripts (slow, long sequences; the byte source really waits)
+		defer wg.Done()
+		ntm, e4 = timing(c, dir)
+	}()
 	go func() {
 		defer wg.Done()
 		core, e1 = c.TLC("MCTermReader(core)", lib.TLCRun{Dir: dir, Module: "MCTermReader", Workers: 1, Timeout: 5 * time.Minute,
@@ -358,7 +364,7 @@ func run(c *lib.Ctx) error {
 			Files: map[string][]byte{"MCTermText.cfg": []byte(fmt.Sprintf("CONSTANT K = %d\nSPECIFICATION Spec\nINVARIANT TimeoutsLegal\nINVARIANT PlainTextLossless\nINVARIANT PoolIsPlain\nINVARIANT EmitB\n", K))}})
 	}()
 	wg.Wait()
-	for _, e := range []error{e1, e2, e3} {
+	for _, e := range []error{e1, e2, e3, e4} {
 		if e != nil {
 			return e
 		}
@@ -420,11 +426,6 @@ func run(c *lib.Ctx) error {
 		}
 	}
 	c.Set("g_text_and_script_behaviours", nt)
-	// ---- G: timing scripts (slow, long sequences; the byte source really waits)
-	ntm, err := timing(c, dir)
-	if err != nil {
-		return err
-	}
 	c.AddTraces(nb + nt + ntm)
 	c.Set("exhaustive", true)
 
